@@ -77,7 +77,9 @@ const (
 	nAPIs
 )
 
-func (a api) String() string { return [...]string{"Value.Set", "Collection.Update", "Collection.Update+create"}[a] }
+func (a api) String() string {
+	return [...]string{"Value.Set", "Collection.Update", "Collection.Update+create"}[a]
+}
 
 // splitW expresses the effective writable mask W as (resource writable fields, extra writable fields, all-writable)
 // in one of several equivalent ways chosen by variant; decoy is a path used where a mask must be ignored.
